@@ -1,11 +1,12 @@
 (* C15 - Connection IDs and peer address migration (RFC 9146 / RFC 9853).
-   Only statements closed by [exact]; models in Rrc/C15Manager.v, Rrc/C15Conn.v, Rrc/C15Router.v,
-   proofs in Rrc/C15ManagerSound.v, Rrc/C15ConnSound.v, Rrc/C15RouterSound.v.
+   Only statements closed by [exact]; models in Rrc/C15Manager.v, Rrc/C15Conn.v, Rrc/C15Newest.v,
+   Rrc/C15Router.v, proofs in Rrc/C15ManagerSound.v, Rrc/C15ConnSound.v, Rrc/C15NewestSound.v,
+   Rrc/C15RouterSound.v.
    Premises carried: none cryptographic.  "Admitted record" (an [ERecord] event) means a record for
    which conn.go prepareIncomingPacket succeeded (authenticity of such records is C05's subject);
    the challenge cookie is an input of the model (drawn by crypto/rand in the code). *)
 From DtlsV Require Import Lib.Bytes Rrc.C15Manager Rrc.C15ManagerSound Rrc.C15Conn Rrc.C15ConnSound
-     Rrc.C15Router Rrc.C15RouterSound.
+     Rrc.C15Newest Rrc.C15NewestSound Rrc.C15Router Rrc.C15RouterSound.
 Open Scope N_scope.
 
 (* ------------------------------------------------------------------ amplification *)
@@ -75,6 +76,50 @@ Theorem C15_no_rrc_no_change :
     negotiated st = false -> raddr (crun st evs) = raddr st /\ couts st evs = [].
 Proof. exact no_rrc_no_change. Qed.
 Print Assumptions C15_no_rrc_no_change.
+
+(* ------------------------------------------------------------------ "newest record" *)
+
+(* [r_latest] above is an input of Rrc/C15Conn.v; Rrc/C15Newest.v computes it as conn.go does (one
+   replay window per epoch, Conn.newestRecord, records of an epoch above the remote epoch are not
+   admitted).  Repaired code (91521a5, 0538fb0): over any stream of authentic protected records and
+   remote-epoch changes, an admitted record judged newest is above - by epoch, then by sequence
+   number (RFC 9146 section 6) - every record admitted before it. *)
+Theorem C15_newest_is_newest :
+  forall (r0 : N) (evs : list nevent) (pre : list (N * N * bool)) (ep seq : N) (post : list (N * N * bool)),
+    snd (nrun true (ninit r0) evs) = pre ++ (ep, seq, true) :: post ->
+    forall ep' seq' b, In (ep', seq', b) pre -> lex_lt (ep', seq') (ep, seq).
+Proof. exact newest_is_newest. Qed.
+Print Assumptions C15_newest_is_newest.
+
+(* Composition with the connection model: after any history (arrivals of any epoch, number,
+   connection ID, content and source address, epoch changes, timer callbacks), a step that produces
+   a path challenge is the arrival of a record above every protected record admitted before. *)
+Theorem C15_challenge_only_for_newest :
+  forall (local : bytes) (r0 : N) (c0 : cstate) (evs : list eevent) (a : arrival) (o : out),
+    let '(st, acc) := erun true local (mkES (ninit r0) c0) evs in
+    In o (snd (fst (estep true local st (EArrive a)))) -> o_type o = TChallenge ->
+    forall p, In p acc -> lex_lt p (a_ep a, a_seq a).
+Proof. exact challenge_only_for_newest. Qed.
+Print Assumptions C15_challenge_only_for_newest.
+
+(* As coded before the repairs the verdict was the replay window's own answer; it fails both ways.
+   F71: the first record of the epoch, arriving after records 1 and 2, is judged newest. *)
+Theorem C15_window_verdict_refuted_late_zero :
+  let evs := [NRecord 3 1; NRecord 3 2; NRecord 3 0] in
+  snd (nrun false (ninit 3) evs) = [(3, 1, true); (3, 2, true); (3, 0, true)] /\
+  snd (nrun true (ninit 3) evs) = [(3, 1, true); (3, 2, true); (3, 0, false)].
+Proof. exact window_verdict_refuted_late_zero. Qed.
+Print Assumptions C15_window_verdict_refuted_late_zero.
+
+(* F72: a record of epoch 3 arriving after the remote epoch moved to 4 is judged newest. *)
+Theorem C15_window_verdict_refuted_old_epoch :
+  let evs := [NRecord 3 0; NRecord 3 1; NRemote 4; NRecord 4 0; NRecord 4 1; NRecord 3 5] in
+  snd (nrun false (ninit 3) evs) =
+    [(3, 0, true); (3, 1, true); (4, 0, true); (4, 1, true); (3, 5, true)] /\
+  snd (nrun true (ninit 3) evs) =
+    [(3, 0, true); (3, 1, true); (4, 0, true); (4, 1, true); (3, 5, false)].
+Proof. exact window_verdict_refuted_old_epoch. Qed.
+Print Assumptions C15_window_verdict_refuted_old_epoch.
 
 (* ------------------------------------------------------------------ challenge freshness *)
 
@@ -150,6 +195,42 @@ Theorem C15_listener_routes_to_cid_owner :
     lookup id conns = Some a -> forall src, get_conn_id conns src (Some id) = Some a.
 Proof. exact owner_gets_record. Qed.
 Print Assumptions C15_listener_routes_to_cid_owner.
+
+(* The premise [lookup id conns = Some a] above is where the listener can fall short (KNOWN GAP
+   K-C15-1): an ID is registered only when some datagram the connection wrote STARTS WITH A COMPLETE
+   ServerHello carrying it (cidConnIdentifier does not reassemble fragments). *)
+Theorem C15_listener_learns_from_complete_serverhello :
+  forall (ws : list first_rec) (f : first_rec) (c : bytes),
+    In f ws -> fr_complete f = true -> fr_cid f = Some c -> exists c', learned ws = Some c'.
+Proof. exact learned_from_complete. Qed.
+Print Assumptions C15_listener_learns_from_complete_serverhello.
+
+Theorem C15_listener_fragmented_serverhello_never_learned :
+  forall ws : list first_rec,
+    (forall f, In f ws -> fr_sh f = true -> fr_off f <> 0 \/ fr_flen f <> fr_len f) -> learned ws = None.
+Proof. exact fragmented_never_learned. Qed.
+Print Assumptions C15_listener_fragmented_serverhello_never_learned.
+
+Theorem C15_listener_unlearned_id_not_routed :
+  forall (addr : bytes) (k : N) (ws : list first_rec) (id src : bytes),
+    learned ws = None -> src <> addr -> id <> addr ->
+    get_conn_id (table_after addr k ws) src (Some id) = None.
+Proof. exact unlearned_id_not_routed. Qed.
+Print Assumptions C15_listener_unlearned_id_not_routed.
+
+(* "routes to the owner whatever the source address, for every ID length" is refuted as coded: a
+   ServerHello of 1203 bytes (DTLS 1.3, 20-byte server ID, default MTU 1200) leaves in two
+   fragments, its ID is never registered, and the record from a new address reaches nobody; the
+   same ServerHello in one piece is registered and routed. *)
+Theorem C15_listener_routes_negotiated_id_refuted :
+  let id := [7; 7; 7] in
+  let ws := [mkFR true 0 1200 1203 (Some id); mkFR true 1200 3 1203 (Some id); mkFR false 0 0 0 None] in
+  (exists f, In f ws /\ fr_sh f = true /\ fr_cid f = Some id) /\
+  learned ws = None /\
+  get_conn_id (table_after [1; 1] 0 ws) [2; 2] (Some id) = None /\
+  get_conn_id (table_after [1; 1] 0 [mkFR true 0 1203 1203 (Some id)]) [2; 2] (Some id) = Some 0.
+Proof. exact listener_routes_negotiated_id_refuted. Qed.
+Print Assumptions C15_listener_routes_negotiated_id_refuted.
 
 (* hypotheses are satisfiable: an honest migration in the model - a newest CID record from
    address 2 starts a challenge, the matching response 0.4 s later switches the address *)
